@@ -138,6 +138,15 @@ def capped(s, k):
     return v + 0.1 * s
 
 
+KQ = 2.5  # a module-level float that a function below also uses as the name of a local
+
+
+def tuple_untr_fn(s, k):
+    """A tuple display with an element that cannot be translated (loop_fn), bound to a name that is also a module constant."""
+    KQ, t = loop_fn(s, k), k * s
+    return t + KQ
+
+
 def weighted3(a, b, c):
     return a + 2 * b + 4 * c
 
